@@ -362,7 +362,7 @@ def install():
         rec = None
         if REC.state is state:
             nm = waited_name_at(state, flow_state, head.position)
-            REC.regnames[(flow_state.uid, head.uid)] = nm
+            REC.regnames[(flow_state.uid, head.uid)] = [nm, head.position]
             REC.stmt_names.setdefault((flow_state.flow_id, head.position), set()).add(nm)
             rec = ref_registration(state, flow_state, head)
         if rec is None:
